@@ -1,5 +1,15 @@
 import RnaVerif.Model.ElementsSpec
-/-! # C07 — structural elements decompose the secondary structure consistently (property theorems) -/
+import RnaVerif.Lemmas.ElementsFinal
+/-! # C07 — structural elements decompose the secondary structure consistently (property theorems)
+
+All statements are about the executable model `RnaVerif.SecStr.elements` (Model/Elements.lean),
+which follows `BpSeq.elements` of `/repo/src/rnapolis/common.py` step by step and is tied to it by
+the differential correspondence check; `specStems`, `specHairpins`, `specLoops`, `specCover`
+(Model/ElementsSpec.lean) are the decidable clauses that the harness evaluates on the REAL code's
+output.  Here they are proved for the model's output, for EVERY valid BPSEQ and every dot-bracket
+line `db` (the hypothesis `db.length = es.length` of the informal statement is not needed: `db` only
+feeds the `str` text of the strands).  Proofs live in `Lemmas/Elements*.lean`.
+-/
 namespace RnaVerif.Props.C07
 open RnaVerif RnaVerif.SecStr
 
@@ -7,5 +17,243 @@ open RnaVerif RnaVerif.SecStr
 theorem spec_example :
     let es : List Entry := [⟨1,'A',10⟩,⟨2,'C',9⟩,⟨3,'G',0⟩,⟨4,'U',0⟩,⟨5,'A',0⟩,⟨6,'C',0⟩,⟨7,'G',0⟩,⟨8,'U',0⟩,⟨9,'A',2⟩,⟨10,'C',1⟩]
     specAll es (elements es "((......))".toList).nums = "ok" := by decide
+
+/-! ## running examples (used for non-vacuity and as kernel-checked TESTS) -/
+
+/-- build a BPSEQ from a sequence and 0-based pairs (test helper) -/
+def ofPairs (seq : String) (ps : List (Nat × Nat)) : List Entry := fromDB seq.toList ps
+
+/-- three-way junction with a bulge: `((..((..))..(.(..)))).` -/
+def exJunction : List Entry :=
+  ofPairs "GGAAGGAACCAAGAGAACCCCA" [(0,20),(1,19),(4,9),(5,8),(12,18),(14,17)]
+def exJunctionDb : List Char := "((..((..))..(.(..)))).".toList
+
+/-- H-type pseudoknot with tails: `.((..[[..))..]].` -/
+def exKnot : List Entry := ofPairs "AGGAACCAACCAAGGA" [(1,10),(2,9),(5,14),(6,13)]
+def exKnotDb : List Char := ".((..[[..))..]].".toList
+
+/-- isolated pairs, an internal loop and a zero-length hairpin: `(.(.()).).` -/
+def exIsolated : List Entry := ofPairs "GAGAGCCACA" [(0,8),(2,6),(4,5)]
+def exIsolatedDb : List Char := "(.(.()).).".toList
+
+/-- no base pair at all -/
+def exNoPairs : List Entry := ofPairs "ACGU" []
+
+example : valid exJunction = true ∧ exJunctionDb.length = exJunction.length := by decide
+example : valid exKnot = true ∧ exKnotDb.length = exKnot.length := by decide
+example : valid exIsolated = true ∧ exIsolatedDb.length = exIsolated.length := by decide
+
+/-! ### TESTS (finite evidence, *not* the theorems): the kernel evaluates the model and the
+specification on concrete structures -/
+
+/-- TEST: multi-branch loop + bulge: 4 stems, 2 hairpins, 2 loops (junction of 3 strands, bulge) -/
+example : specAll exJunction (elements exJunction exJunctionDb).nums = "ok" ∧
+    ((elements exJunction exJunctionDb).nums.stems.length,
+     (elements exJunction exJunctionDb).nums.hairpins.length,
+     (elements exJunction exJunctionDb).nums.loops.map List.length) = (4, 2, [3, 2]) := by
+  decide
+
+/-- TEST: pseudoknot: no chain of candidates closes, so all candidates stay single strands (the
+two-nucleotide stem strands `(2,3)`, `(6,7)`, `(10,11)`, `(14,15)` are candidates with an empty
+interior: their 2-cycles close but are dropped by the "all strands short" filter) -/
+example : specAll exKnot (elements exKnot exKnotDb).nums = "ok" ∧
+    (elements exKnot exKnotDb).nums.loops = [] ∧
+    (elements exKnot exKnotDb).nums.singles =
+      [(1, 2, 5), (15, 16, 3), (2, 3, 0), (3, 6, 0), (6, 7, 0), (7, 10, 0), (10, 11, 0), (11, 14, 0),
+       (14, 15, 0)] := by
+  decide
+
+/-- TEST: isolated pairs and a zero-length hairpin -/
+example : specAll exIsolated (elements exIsolated exIsolatedDb).nums = "ok" ∧
+    (elements exIsolated exIsolatedDb).nums.hairpins = [(5, 6)] ∧
+    (elements exIsolated exIsolatedDb).nums.loops = [[(1, 3), (7, 9)], [(3, 5), (6, 7)]] := by
+  decide
+
+/-- TEST: no base pairs: one single strand (kind 53) covering everything -/
+example : specAll exNoPairs (elements exNoPairs "....".toList).nums = "ok" ∧
+    (elements exNoPairs "....".toList).nums.singles = [(1, 4, 53)] := by decide
+
+/-! ## 1. stems -/
+
+/-- **stems_spec**: for every valid BPSEQ the stems of the model are mirrored runs of directly
+stacked pairs (`partner (f5+t) = l3-t` and back, equal strand lengths, 5' strand before 3' strand),
+every 5'→3' pair lies in exactly one stem, and no stem is directly stacked on another
+(maximality of the runs) -/
+theorem stems_spec (es : List Entry) (db : List Char) (hv : valid es = true) :
+    specStems es (elements es db).nums = true :=
+  specStems_model ((SecStr.valid_iff es).mp hv) db
+
+example : valid exJunction = true ∧ (elements exJunction exJunctionDb).nums.stems.length = 4 := by
+  decide
+
+/-- the numbers of the stems are a function of the regions `(i, j, len)` of `BpSeq.__regions`:
+5' strand `[i, i+len-1]`, 3' strand `[j-len+1, j]` — in particular the 3' strand, which the code
+finds by filtering *all* entries for partners of the 5' strand, is the contiguous mirrored run -/
+theorem stems_are_regions (es : List Entry) (db : List Char) (hv : valid es = true)
+    (hne : (stemsEntries es).isEmpty = false) :
+    (elements es db).nums.stems =
+      (regions es).map (fun r => (r.i, r.i + r.len - 1, r.j - r.len + 1, r.j)) :=
+  nums_stems_eq ((SecStr.valid_iff es).mp hv) db hne
+
+example : valid exKnot = true ∧ (stemsEntries exKnot).isEmpty = false := by decide
+
+/-! ## 2. hairpins -/
+
+/-- **hairpins_spec**: every reported hairpin `(i, j)` has `i < j`, `partner i = j` and only unpaired
+nucleotides strictly between; every 5'→3' pair enclosing only unpaired nucleotides is reported;
+no hairpin is reported twice -/
+theorem hairpins_spec (es : List Entry) (db : List Char) (hv : valid es = true) :
+    specHairpins es (elements es db).nums = true :=
+  specHairpins_model ((SecStr.valid_iff es).mp hv) db
+
+example : valid exIsolated = true ∧ (elements exIsolated exIsolatedDb).nums.hairpins = [(5, 6)] := by
+  decide
+
+/-- **hairpins_exact**: `(i, j)` is reported as a hairpin iff `i < j`, `i` and `j` are paired with
+each other and everything strictly between is unpaired (`1 ≤ i`: positions are 1-based) -/
+theorem hairpins_exact (es : List Entry) (db : List Char) (hv : valid es = true) (i j : Nat)
+    (hi : 1 ≤ i) :
+    (i, j) ∈ (elements es db).nums.hairpins ↔
+      i < j ∧ partnerOf es i = j ∧ unpairedBetween es i j = true := by
+  have v := (SecStr.valid_iff es).mp hv
+  have hs := specHairpins_model v db
+  unfold specHairpins at hs
+  simp only [Bool.and_eq_true, List.all_eq_true] at hs
+  obtain ⟨⟨h1, h2⟩, _⟩ := hs
+  constructor
+  · intro hm
+    have := h1 (i, j) hm
+    simp only [decide_eq_true_eq, beq_iff_eq] at this
+    exact ⟨this.1.1, this.1.2, this.2⟩
+  · rintro ⟨hij, hp, hu⟩
+    obtain ⟨_, _, _, hil, _⟩ := partnerOf_symm v hi hp (by omega)
+    have hk : i - 1 < es.length := by omega
+    have hidx : es[i - 1].idx = i := by rw [v.idx_get _ hk]; omega
+    have hpr : es[i - 1].pair = j := by
+      have := partnerOf_eq hk
+      rw [show i - 1 + 1 = i by omega, hp] at this
+      exact this.symm
+    have hm : es[i - 1] ∈ paired5to3 es :=
+      mem_paired5to3.mpr ⟨List.getElem_mem hk, by omega, by omega⟩
+    have := h2 _ hm
+    rw [hidx, hpr, hu] at this
+    simpa using this
+
+example : valid exJunction = true ∧ (6, 9) ∈ (elements exJunction exJunctionDb).nums.hairpins := by
+  decide
+
+/-! ## 3. stops and the intervals between them -/
+
+/-- **candidates_tile**: the stop list of the model (0-based ends of all stem strands, sorted, without
+repetition) is strictly increasing; every stop is a paired position; every paired position lies
+between two stops; a non-stop position strictly between the first and the last stop lies strictly
+inside exactly one interval of consecutive stops; and the interior of every such interval is either
+all unpaired (hairpin or loop candidate) or all paired (inside a stem strand — dropped) -/
+theorem candidates_tile (es : List Entry) (db : List Char) (hv : valid es = true) :
+    (stopsOf es db).Pairwise (· < ·) ∧
+    (∀ x ∈ stopsOf es db, x < es.length ∧ partnerOf es (x + 1) ≠ 0) ∧
+    (∀ p, partnerOf es (p + 1) ≠ 0 →
+      ∃ f l, f ∈ stopsOf es db ∧ l ∈ stopsOf es db ∧ f ≤ p ∧ p ≤ l) ∧
+    (∀ p, p ∉ stopsOf es db → (stopsOf es db).headD 0 < p → p < (stopsOf es db).getLastD 0 →
+      ((consec (stopsOf es db)).filter (fun ab => decide (ab.1 < p) && decide (p < ab.2))).length = 1) ∧
+    (∀ a b, (a, b) ∈ consec (stopsOf es db) →
+      (∀ k, a < k → k < b → partnerOf es (k + 1) = 0) ∨
+      (∀ k, a < k → k < b → partnerOf es (k + 1) ≠ 0)) := by
+  have v := (SecStr.valid_iff es).mp hv
+  refine ⟨stopsOf_sorted es db, fun x hx => stop_paired v db hx, ?_, ?_, fun a b h => interval_uniform v db h⟩
+  · intro p hp
+    obtain ⟨f, l, hf, hl, h1, h2, _⟩ := paired_between_stops v db hp
+    exact ⟨f, l, hf, hl, h1, h2⟩
+  · intro p hp h1 h2
+    rw [consec_count (stopsOf_sorted es db) hp, if_pos ⟨h1, h2⟩]
+
+example : valid exJunction = true ∧ stopsOf exJunction exJunctionDb = [0, 1, 4, 5, 8, 9, 12, 14, 17, 18, 19, 20] := by
+  decide
+
+/-- the stops are exactly the 0-based ends of the four strand ends of every region -/
+theorem stops_are_strand_ends (es : List Entry) (db : List Char) (hv : valid es = true) (x : Nat) :
+    x ∈ stopsOf es db ↔ ∃ r ∈ regions es,
+      x = r.i - 1 ∨ x = r.i + r.len - 1 - 1 ∨ x = r.j - r.len + 1 - 1 ∨ x = r.j - 1 :=
+  mem_stopsOf ((SecStr.valid_iff es).mp hv) db
+
+example : valid exKnot = true ∧ (regions exKnot).length = 2 := by decide
+
+/-! ## 4. loops -/
+
+/-- **loops_spec**: every reported loop has at least two strands; every strand has `first < last`
+and an unpaired interior; the last nucleotide of each strand is paired with the first nucleotide of
+the next; and the first nucleotide of the first strand is paired with the last of the last strand -/
+theorem loops_spec (es : List Entry) (db : List Char) (hv : valid es = true) :
+    specLoops es (elements es db).nums = true :=
+  specLoops_model ((SecStr.valid_iff es).mp hv) db
+
+example : valid exJunction = true ∧
+    (elements exJunction exJunctionDb).nums.loops = [[(2, 5), (10, 13), (19, 20)], [(13, 15), (18, 19)]] := by
+  decide
+
+/-! ## 5. cover -/
+
+/-- **cover_spec**: every unpaired nucleotide lies in the interior of exactly one single strand,
+hairpin or loop strand (tails: the interior excludes the paired end only) -/
+theorem cover_spec (es : List Entry) (db : List Char) (hv : valid es = true) :
+    specCover es (elements es db).nums = true :=
+  specCover_model ((SecStr.valid_iff es).mp hv) db
+
+example : valid exKnot = true ∧ (exKnot.filter (fun e => e.pair == 0)).length = 8 := by decide
+
+/-- the full statement (kept visible; it is the theorem `cover_spec` above) -/
+def cover_spec_full : Prop :=
+  ∀ es db, valid es = true → db.length = es.length → specCover es (elements es db).nums = true
+
+theorem cover_spec_full_holds : cover_spec_full := fun es db hv _ => cover_spec es db hv
+
+/-- Prop-level reading of `cover_spec`: for every unpaired entry exactly one of the listed
+interiors contains its index -/
+theorem unpaired_covered_once (es : List Entry) (db : List Char) (hv : valid es = true) :
+    ∀ e ∈ es, e.pair = 0 →
+      ((interiors (elements es db).nums).filter
+        (fun q => decide (q.1 ≤ e.idx) && decide (e.idx ≤ q.2))).length = 1 :=
+  (specCover_iff es _).mp (cover_spec es db hv)
+
+example : valid exIsolated = true ∧ ∃ e ∈ exIsolated, e.pair = 0 := by decide
+
+/-- the successor relation used for chain following is injective in both directions among the
+candidates (candidates have pairwise different first nucleotides), and no candidate is reported
+twice: the strands of all reported loops are pairwise different candidates, and `used` is exactly
+their concatenation -/
+theorem loops_disjoint (es : List Entry) (db : List Char) (hv : valid es = true) :
+    (chainFold es (candsOf es db)).1.flatten.Nodup ∧
+    (chainFold es (candsOf es db)).2 = (chainFold es (candsOf es db)).1.flatten ∧
+    (∀ l ∈ (chainFold es (candsOf es db)).1, ∀ c ∈ l, c ∈ candsOf es db) ∧
+    (candsOf es db).Nodup := by
+  have v := (SecStr.valid_iff es).mp hv
+  have hc := candsOf_ok v db
+  have inv := chainFold_inv v hc
+  exact ⟨inv.nodup, inv.used_eq, inv.sub, hc.nodup⟩
+
+example : valid exJunction = true ∧ (candsOf exJunction exJunctionDb).length = 9 := by decide
+
+/-! ## 6. strand texts -/
+
+/-- **strand_text_is_slice**: for every strand of every element of the model (both strands of every
+stem, single strands, hairpins, loop strands), the sequence text is the slice `[first-1, last)` of
+the sequence and the structure text is the same slice of the dot-bracket line -/
+theorem strand_text_is_slice (es : List Entry) (db : List Char) (hv : valid es = true) :
+    ∀ s ∈ (elements es db).allStrands,
+      s.seq = slice (sequence es) (s.first - 1) s.last ∧ s.str = slice db (s.first - 1) s.last :=
+  strand_text_model ((SecStr.valid_iff es).mp hv) db
+
+example : valid exJunction = true ∧ (elements exJunction exJunctionDb).allStrands.length = 20 := by
+  decide
+
+/-! ## 7. all clauses -/
+
+/-- **elements_meet_spec**: the model's decomposition of every valid BPSEQ satisfies the whole
+specification that the harness evaluates on the real code's output -/
+theorem elements_meet_spec (es : List Entry) (db : List Char) (hv : valid es = true)
+    (_hdb : db.length = es.length) : specAll es (elements es db).nums = "ok" :=
+  specAll_model ((SecStr.valid_iff es).mp hv) db
+
+example : valid exKnot = true ∧ exKnotDb.length = exKnot.length := by decide
 
 end RnaVerif.Props.C07
